@@ -290,6 +290,8 @@ def cut(src, spec):
 
 from .segspecs import SEGMENTS  # noqa: E402
 
+CTX_FIELDS = ["channel", "circ", "inputs", "is_contrib", "p_fpre", "p_eval", "p_own", "p_max", "p_out", "num_and_ops", "num_inputs", "tmp_dir"]
+
 
 def generate(scratch, hdir, disabled=None):
     """Write verif_harness/segs_<module>.rs for every module; returns per-segment info.
@@ -302,7 +304,17 @@ def generate(scratch, hdir, disabled=None):
         name = spec["name"]
         mod = spec["module"]
         out.setdefault(mod, [])
-        sig = f"pub(crate) fn seg_{name}{spec.get('generics','')}({spec['params']}) -> {spec['ret']}"
+        params = spec["params"]
+        ctx_pro = ""
+        if spec.get("ctx_fields"):
+            # the enclosing function destructures its Context; make every field of the real
+            # Context available to the cut statements (an edit that starts using another field
+            # must not make the segment uncompilable)
+            have = set(re.findall(r"(?:mut )?(\w+)\s*:", params))
+            rest = [f for f in CTX_FIELDS if f not in have]
+            params = "ctx: &Context<'_, NoChan>, " + params
+            ctx_pro = "#[allow(unused_variables)]\nlet &Context { " + ", ".join(rest) + ", .. } = ctx;\n"
+        sig = f"pub(crate) fn seg_{name}{spec.get('generics','')}({params}) -> {spec['ret']}"
         try:
             if name in disabled:
                 raise ValueError("cut text does not compile against the declared live-in variables (source was restructured): " + disabled[name])
@@ -312,11 +324,12 @@ def generate(scratch, hdir, disabled=None):
                 for part in spec["parts"]:
                     sub = dict(spec)
                     sub.pop("parts")
-                    for k_ in ("after", "until", "inclusive", "until_inclusive", "in_block_of", "allow_await"):
+                    for k_ in ("after", "until", "inclusive", "until_inclusive", "in_block_of", "allow_await", "expr_in", "expr_regex"):
                         sub.pop(k_, None)
                     sub.update(part)
+                    pre_, post_ = sub.pop("pre", ""), sub.pop("post", "")
                     t_, l_ = cut(src, sub)
-                    texts.append(t_)
+                    texts.append(pre_ + t_ + post_)
                     lo_, hi_ = min(lo_, l_[0]), max(hi_, l_[1])
                 text, lines = "\n".join(texts), (lo_, hi_)
             else:
@@ -328,7 +341,7 @@ def generate(scratch, hdir, disabled=None):
                     raise ValueError(f"substitution {pat!r} did not apply (source changed)")
                 subs.append({"pattern": pat, "replacement": rep, "count": n})
                 text = new
-            body = (spec.get("prologue", "") + "\n" + text + "\n" + spec.get("epilogue", "")).strip("\n")
+            body = (ctx_pro + spec.get("prologue", "") + "\n" + text + "\n" + spec.get("epilogue", "")).strip("\n")
             if spec.get("forget"):
                 # by-value inputs are only borrowed by the cut statements; run them in a closure
                 # and forget the inputs afterwards so that their drop glue (not part of the cut,
@@ -343,7 +356,7 @@ def generate(scratch, hdir, disabled=None):
                 "lines": list(lines),
                 "sha1": hashlib.sha1(text.encode()).hexdigest()[:16],
                 "substitutions": subs,
-                "live_in": spec["params"],
+                "live_in": params,
             }
         except Exception as e:  # noqa: BLE001
             out[mod].append(f"// ---- segment {name}: UNAVAILABLE ({e})\n#[allow(unused_variables, clippy::all)]\n{sig} {{\n    panic!(\"segment {name} could not be cut from the current source\")\n}}\n")
